@@ -353,7 +353,8 @@ PROPS["C07"] = {
         + _c07(["c07_parse_remb_15", "c07_parse_remb_24"], RM, "parse_remb_body", "parse_remb_body")
         + _c07(["c07_parse_twcc_15", "c07_parse_twcc_20"], RM, "parse_twcc_body", "parse_twcc_body")
         + _c07(["c07_parse_fir_7", "c07_parse_fir_24"], RM, "parse_fir_body", "parse_fir_body")
-        + _c07(["c07_parse_rtcp_packets_4", "c07_parse_rtcp_packets_8", "c07_parse_rtcp_packets_12"], RM, "parse_rtcp_packets", "parse_rtcp_packets (compound walker)")
+        + _c07(["c07_walker_unknown_4", "c07_walker_unknown_8", "c07_walker_xr_8", "c07_walker_rr_8", "c07_walker_psfb_12", "c07_walker_rtpfb_16", "c07_walker_sr_28"], RM, "parse_rtcp_packets",
+               "parse_rtcp_packets (compound walker; ONE sub-packet, type octet and length field fixed: unknown=0 / XR=207 / RR=201 / PSFB=206 / RTPFB=205 / SR=200; V, P, count, body, padding count symbolic)")
         + _c07(["c07_stun_decode_0", "c07_stun_decode_19", "c07_stun_decode_20", "c07_stun_decode_24"], SM, "decode_stun_message", "decode_stun_message")
         + [
             K("parse_xor_address total (<= 20 B)", "c07_parse_xor_address_total", "quick", "bounded", ["parse_xor_address"],
